@@ -23,6 +23,7 @@ type c11Meta struct {
 	Extras   []string    `json:"extras"` // per process: trailing statements
 	Prefixes []string    `json:"prefixes"`
 	Injected bool        `json:"injected"`
+	Stale    []string    `json:"stale,omitempty"` // control files that were there before any process started (left by a killed process)
 }
 
 type c11 struct{}
@@ -199,6 +200,27 @@ func (c11) Gen(seed uint64, tier string) *Scenario {
 			outFile = fmt.Sprintf("out%d.txt", p)
 		}
 		sc.Procs = append(sc.Procs, ProcSpec{OutFile: outFile, CPU: r.Pick(1, 1, 1, 2, 4), WaitTimeoutS: w.wt + float64(137*(p+1))*1e-9, RetryDelayNs: w.retry + int64(1009*(p+1)+2*p*p), Format: "CSV", Quiet: true})
+	}
+	if rs := Sub(seed, "c11-stale"); rs.Bool(0.12) {
+		// control files that a killed process left behind ("other than an uncatchable kill" is about the run
+		// that ends, not about what it finds): whoever needs the table gives up after its wait timeout,
+		// changes nothing, and leaves nothing of its own - in particular not the table it wanted to create
+		name := ""
+		switch k := rs.Intn(5); {
+		case k <= 1 && m.Kind == "mixed":
+			name = ".c0.lock"
+			if !strings.Contains(m.Prefixes[0], "CREATE TABLE c0") {
+				m.Prefixes[0] = "CREATE TABLE c0 (id, n);\nINSERT INTO c0 VALUES (1, 1);" + rs.PickS("", "\nCOMMIT;")
+			}
+		case k == 2:
+			name = "." + tableName(0) + ".csv.stale-owner.rlock"
+		case k == 3:
+			name = "." + tableName(0) + ".csv.temp"
+		default:
+			name = "." + tableName(0) + ".csv.lock"
+		}
+		sc.Files = append(sc.Files, FileSpec{Name: name, Content: ""})
+		m.Stale = append(m.Stale, name)
 	}
 	renderC11(sc, m)
 	sc.Knobs = Knobs{RowStride: r.Pick(1, 2, 8), Pool: "lifo", MinPerCore: r.Pick(0, 5, 10)}
@@ -416,7 +438,7 @@ func (c11) Eval(t *testing.T, c *Case, dec func(int) *Decider) *Outcome {
 				o.Stats.probe("real-signal-delivered")
 			}
 			for _, n := range dir.Names() {
-				if IsControlFile(n) {
+				if IsControlFile(n) && !contains(meta.Stale, n) {
 					o.viol(prop, "control-files", "real-leftover:"+ctlKind(n),
 						fmt.Sprintf("real csvq process (program of p%d, signal plan %s, exit %d) left %s behind; stderr: %s", p, spec, code, n, firstLine(stderr)))
 				}
@@ -457,8 +479,13 @@ func judgeLeftovers(o *Outcome, prop string, sc *Scenario, meta *c11Meta, res *R
 			o.Stats.probe("end:error")
 		}
 	}
+	stale := map[string]bool{}
+	for _, n := range meta.Stale {
+		stale[n] = true
+		o.Stats.probe("stale-control-file-scenario")
+	}
 	for _, n := range res.Final.Names() {
-		if IsControlFile(n) {
+		if IsControlFile(n) && !stale[n] {
 			o.viol(prop, "control-files", "leftover:"+ctlKind(n),
 				fmt.Sprintf("run %d: %s is left in the repository after every process has terminated (cancels=%v faults=%v; endings: %s)", runIdx, n, sc.Cancels, sc.Faults, strings.Join(outputsShort(res), "; ")))
 		}
@@ -478,6 +505,29 @@ func judgeLeftovers(o *Outcome, prop string, sc *Scenario, meta *c11Meta, res *R
 			o.Stats.probe("created-and-committed")
 		} else {
 			o.Stats.probe("created-not-committed")
+		}
+	}
+	// the same from the outside: a file that was not there at the start is a table some transaction committed
+	// (a creation that fails half way never reaches the hook that announces the handler)
+	if lo.created != nil {
+		given := map[string]bool{}
+		for _, f := range sc.Files {
+			given[f.Name] = true
+		}
+		for _, ps := range sc.Procs {
+			if ps.OutFile != "" {
+				given[filepath.Clean(ps.OutFile)] = true
+			}
+		}
+		for _, n := range res.Final.Names() {
+			if given[n] || IsControlFile(n) || lo.commitOK["$R/"+n] {
+				continue
+			}
+			if _, seen := lo.created["$R/"+n]; seen {
+				continue // reported above
+			}
+			o.viol(prop, "uncommitted-create", "uncommitted-table-left",
+				fmt.Sprintf("run %d: %s appeared in the repository although no transaction committed it (endings: %s)", runIdx, n, strings.Join(outputsShort(res), "; ")))
 		}
 	}
 	// an --out file into which nothing was written does not stay behind
